@@ -158,6 +158,54 @@ Proof.
   intros d0 d1 spz lw0 lw1 H0 H1. unfold gd_residual. rewrite gd_solute_shift, H0, H1. field.
 Qed.
 
+
+(* ---- LLNL-type databases: A, B, Bdot taken from the DATABASE TEXT (LLNL_AQUEOUS_MODEL_PARAMETERS grid), interpolated
+   linearly in exact rational arithmetic at the reported temperature, instead of from the engine's DH_A/DH_B/DH_BDOT
+   read-outs (which would repeat an interpolation mistake of the engine consistently). *)
+Definition linQ (t t0 t1 p0 p1 : Q) : Q := p0 + (p1 - p0) * (t - t0) / (t1 - t0).
+
+Lemma linQ_correct : forall t t0 t1 p0 p1, ~ t0 == t1 ->
+  Q2R (linQ t t0 t1 p0 p1) = (Q2R p0 + (Q2R p1 - Q2R p0) * (Q2R t - Q2R t0) / (Q2R t1 - Q2R t0))%R.
+Proof.
+  intros t t0 t1 p0 p1 Hne. unfold linQ.
+  assert (Hd : ~ t1 - t0 == 0).
+  { intro H. apply Hne. assert (E : t1 == (t1 - t0) + t0) by ring. rewrite E, H. ring. }
+  rewrite Q2R_plus, Q2R_div by exact Hd. rewrite Q2R_mult, !Q2R_minus. reflexivity.
+Qed.
+
+(* the two grid temperatures bracketing the solution temperature and the grid values of A, B, Bdot there *)
+Record bracket : Type := mkBr { g_t0 : Q; g_t1 : Q; g_a0 : Q; g_a1 : Q; g_b0 : Q; g_b1 : Q; g_d0 : Q; g_d1 : Q }.
+
+Definition obs_llnl (lg mu tc tk law : Q) (br : bracket) : obs :=
+  mkObs lg mu (linQ tc (g_t0 br) (g_t1 br) (g_a0 br) (g_a1 br)) (linQ tc (g_t0 br) (g_t1 br) (g_b0 br) (g_b1 br))
+        (linQ tc (g_t0 br) (g_t1 br) (g_d0 br) (g_d1 br)) tk law.
+
+Definition check_gamma_llnl (m : gmodel) (lg mu tc tk law : Q) (br : bracket) : bool :=
+  negb (Qeq_bool (g_t0 br) (g_t1 br)) && check_gamma m (obs_llnl lg mu tc tk law br).
+
+Definition interpR (t t0 t1 p0 p1 : R) : R := (p0 + (p1 - p0) * (t - t0) / (t1 - t0))%R.
+
+Theorem check_gamma_llnl_sound : forall z a0 lg mu tc tk law br,
+  check_gamma_llnl (GBdot z a0) lg mu tc tk law br = true ->
+  let T := Q2R tc in let T0 := Q2R (g_t0 br) in let T1 := Q2R (g_t1 br) in
+  (Rabs (Q2R lg - bdot_dh (interpR T T0 T1 (Q2R (g_a0 br)) (Q2R (g_a1 br)))
+                          (interpR T T0 T1 (Q2R (g_b0 br)) (Q2R (g_b1 br)))
+                          (interpR T T0 T1 (Q2R (g_d0 br)) (Q2R (g_d1 br)))
+                          (Q2R z) (Q2R a0) (Q2R mu)) <= / 1000000000)%R.
+Proof.
+  intros z a0 lg mu tc tk law br H T T0 T1. unfold check_gamma_llnl in H.
+  apply andb_prop in H. destruct H as [Hne H].
+  assert (Hne' : ~ g_t0 br == g_t1 br).
+  { intro E. apply Qeq_bool_iff in E. rewrite E in Hne. discriminate. }
+  apply check_gamma_sound in H. unfold spec_R, obs_llnl in H. simpl in H.
+  rewrite !linQ_correct in H by exact Hne'. exact H.
+Qed.
+
+Example check_gamma_llnl_example :   (* 40 C between the 25 and 60 C grid points of llnl.dat, Na+-like ion at I = 0.1 *)
+  check_gamma_llnl (GBdot 1 4) ((-113095249398) # 1000000000000) (1 # 10) 40 (31315 # 100) 0
+    (mkBr 25 60 (5114 # 10000) (5465 # 10000) (3288 # 10000) (3346 # 10000) (41 # 1000) (438 # 10000)) = true.
+Proof. vm_compute. reflexivity. Qed.
+
 (* non-vacuity / self-test *)
 Example check_gamma_example :
   check_gamma (GDavies 2) (mkObs ((-428916269638) # 1000000000000) (1 # 10) (51 # 100) (33 # 100) 0 (29815 # 100) 0) = true.
